@@ -13,7 +13,7 @@ THEOREMS = ['Otel.KvIdx.trim3_spec', 'Otel.KvIdx.trim1_spec', 'Otel.KvIdx.splitM
     'fromHeader_toHeader_trailing_space_witness', 'fromHeader_toHeader_comma_in_metadata_witness',
     'toHeader_eq_nil_iff', 'baggage_extract_eq', 'extract_empty_leaves_context', 'extract_installs_parsed', 'baggage_inject_eq',
     'baggage_propagator_roundtrip', 'composite_inject_eq_foldl', 'composite_extract_eq_foldl', 'composite_empty_identity',
-    'composite_append')]
+    'composite_append', 'builtin_extract_ok', 'composite_builtin_never_faults')]
 HARNESSES = [Harness('f_c15', ['harness/f_c15.cc'])]
 H = 'f_c15'
 RULE = ('Set/Delete/Get/ToHeader/round-trip sequences over a small key pool with printable keys and values (spaces, = , % + ; in keys, '
